@@ -15,7 +15,8 @@ pub fn name(rng: &mut Rng, patch: bool) -> Vec<u8> {
         }
     }
     if patch {
-        n.extend_from_slice(rng.pick_str(&["patch-", "patch-", "emul-x-patch-", "emul-linux-patch-"]).as_bytes());
+        // ("emul-patch-": the "-patch-" of the rule starts inside the "emul-" prefix)
+        n.extend_from_slice(rng.pick_str(&["patch-", "patch-", "emul-x-patch-", "emul-linux-patch-", "emul-patch-", "emul--patch-"]).as_bytes());
     } else if rng.chance(1, 6) {
         n.extend_from_slice(rng.pick_str(&["patch-local-", "foo.patch-", "patch-2.7.tar.", "xpatch-"]).as_bytes());
     }
@@ -40,8 +41,13 @@ pub fn name(rng: &mut Rng, patch: bool) -> Vec<u8> {
         if rng.chance(1, 2) { long[k / 2] = 0xe9; }
         n.extend_from_slice(&long);
     }
+    // a literal of the code under test in or as the name (kept only if the result is still a
+    // blank-free name without a trailing '/', "//" or "." / ".." components)
+    let d: Vec<u8> = crate::dict::dictify_bytes(rng, &n, 20);
+    let ok = !d.is_empty() && !d.iter().any(|c| c.is_ascii_whitespace()) && d.last() != Some(&b'/')
+        && d.split(|c| *c == b'/').all(|seg| !seg.is_empty() && seg != b"." && seg != b"..");
     // no trailing '/', no "//", no "." / ".." components
-    n
+    if ok { d } else { n }
 }
 fn hash(rng: &mut Rng) -> String {
     // recorded hashes are text: kept exactly as written (upper case, odd characters included)
@@ -102,6 +108,12 @@ pub fn messy(rng: &mut Rng) -> Vec<u8> {
     let nnames = if many { *rng.pick(&[17usize, 18, 33, 65, 130]) } else { rng.range(1, 4) };
     let names: Vec<Vec<u8>> = (0..nnames).map(|i| name(rng, i % 2 == 1)).collect();
     let mut t: Vec<u8> = vec![];
+    // something in front of the first line that is neither a blank nor part of an algorithm name:
+    // a byte order mark, a literal of the code under test (the line is then not a recognised one)
+    if rng.chance(1, 20) {
+        if rng.chance(1, 2) { t.extend_from_slice(b"\xef\xbb\xbf"); }
+        else { let mut d = crate::dict::token(rng).into_bytes(); d.retain(|c| *c != b'\n'); t.extend_from_slice(&d); }
+    }
     let nlines = if many { nnames * 3 } else { rng.range(0, 14) };
     for li in 0..nlines {
         // first a line for every file in turn, then random ones: the first file's later lines
@@ -143,6 +155,35 @@ pub fn messy(rng: &mut Rng) -> Vec<u8> {
     }
     if rng.chance(1, 3) { t.pop(); }
     t
+}
+
+/// names to look up in a parsed text: the names it mentions, and near misses of them (a
+/// directory in front, the last component alone, a longer name, a shorter one)
+pub fn probes(text: &[u8], rng: &mut Rng) -> Vec<Vec<u8>> {
+    let mut names: Vec<Vec<u8>> = vec![];
+    for line in text.split(|c| *c == b'\n') {
+        if let (Some(o), Some(c)) = (line.iter().position(|c| *c == b'('), line.iter().rposition(|c| *c == b')')) {
+            if o < c && c - o < 300 && names.len() < 12 { let n = line[o + 1..c].to_vec(); if !names.contains(&n) { names.push(n); } }
+        }
+    }
+    let mut ps = vec![];
+    for n in names.clone() {
+        ps.push(n.clone());
+        let mut v = rng.pick_str(&["v2/", "sub/", "a/b/", "/"]).as_bytes().to_vec(); v.extend_from_slice(&n); ps.push(v);
+        if let Some(k) = n.iter().rposition(|c| *c == b'/') { ps.push(n[k + 1..].to_vec()); }
+        if rng.chance(1, 2) { let mut v = n.clone(); v.push(b'x'); ps.push(v); }
+        if n.len() > 1 && rng.chance(1, 2) { ps.push(n[..n.len() - 1].to_vec()); }
+    }
+    // the tables are keyed by paths, and a path compares by components: "a/b/." = "a/b/" = "a//b" = "a/b".
+    // Which of several spellings of one path a lookup finds is not what is asked here: a probe that
+    // spells a recorded name differently is dropped (so is every probe if two recorded names are
+    // spellings of one path)
+    use std::os::unix::ffi::OsStrExt;
+    let path = |b: &[u8]| std::path::PathBuf::from(std::ffi::OsStr::from_bytes(b));
+    let rec: Vec<Vec<u8>> = names.clone();
+    if rec.iter().any(|a| rec.iter().any(|b| a != b && path(a) == path(b))) { return vec![]; }
+    ps.retain(|p| !rec.iter().any(|n| n != p && path(n) == path(p)));
+    ps
 }
 
 /// does the name start like a patch (the specification decides the real classification; this
@@ -189,7 +230,10 @@ pub fn verify(rng: &mut Rng) -> Value {
     let mut path: Vec<Vec<u8>> = (0..depth - 1).map(|_| comp(rng)).collect();
     let patch = rng.chance(1, 3);
     path.push(if patch { format!("patch-{}", rng.pick_str(&["aa", "src_x.c", "Makefile"])).into_bytes() } else { rng.pick_str(&["f.tgz", "pkg-1.0.tar.gz", "data.bin", "patch-local-x", "patch-a.orig"]).as_bytes().to_vec() });
-    let content = if rng.chance(1, 60) { super::digests::big_data(rng) } else { super::digests::data(rng, 800) };
+    let content = if rng.chance(1, if patch { 25 } else { 90 }) { super::digests::big_data(rng) } else { super::digests::data(rng, 800) };
+    // now and then the file is overwritten in place after the first verification (same length,
+    // same modification time, one byte changed) and verified again
+    let rewrite = if !content.is_empty() && rng.chance(1, 4) { rng.range(1, content.len()) } else { 0 };
     let suffix = |n: usize| -> Vec<u8> { path[path.len() - n..].join(&b'/') };
     let mut lines = vec![];
     let mut names: Vec<Vec<u8>> = vec![];
@@ -213,5 +257,5 @@ pub fn verify(rng: &mut Rng) -> Value {
             lines.push(json!({"kind": "size", "name": bytes_json(&nm), "n": codes(&format!("{}", n))}));
         }
     }
-    json!({"path": path.iter().map(|c| bytes_json(c)).collect::<Vec<_>>(), "content": bytes_json(&content), "lines": lines})
+    json!({"path": path.iter().map(|c| bytes_json(c)).collect::<Vec<_>>(), "content": bytes_json(&content), "lines": lines, "rewrite": rewrite})
 }
